@@ -226,6 +226,51 @@ def look_through(a, prefix=""):
             if _pm.SINK_COUNT[0] + _pm.UNGUARD_COUNT[0] != before:
                 a.normalised += 1
                 f_["node"]["body"] = nb
+    try:
+        return _look_through_helpers(a, prefix)
+    finally:
+        number_nodes(a)
+
+
+def number_nodes(a):
+    """gives every node of every function body its position in evaluation (pre-)order: `ord` and the last position of its subtree `ord_end`.
+    Rules compare these instead of line numbers, because inlined helper bodies keep the spans of the helper."""
+    for f_ in a.functions():
+        b_ = f_["node"].get("body")
+        if b_ is None:
+            continue
+        counter = [0]
+
+        def rec(n):
+            if isinstance(n, dict):
+                counter[0] += 1
+                n["ord"] = counter[0]
+                for k, v in n.items():
+                    if k in ("sp", "attrs"):
+                        continue
+                    if isinstance(v, (dict, list)):
+                        rec(v)
+                n["ord_end"] = counter[0]
+            elif isinstance(n, list):
+                for x in n:
+                    rec(x)
+        rec(b_)
+
+
+def before(x, y):
+    """does node x come (entirely) before node y in the function? (position order; falls back to line numbers)"""
+    if "ord_end" in x and "ord" in y:
+        return x["ord_end"] < y["ord"]
+    return x["sp"][0] < y["sp"][0]
+
+
+def inside(x, y):
+    if "ord" in x and "ord" in y and "ord_end" in y:
+        return y["ord"] <= x["ord"] <= y["ord_end"]
+    return y["sp"][0] <= x["sp"][0] <= y["sp"][2]
+
+
+def _look_through_helpers(a, prefix=""):
     if not os.path.exists(VOCAB):
         raise CheckerError("lib/vocab.json missing (tools/gen_vocab.py)")
     with open(VOCAB) as fh:
